@@ -134,6 +134,20 @@ Theorem C16_load_once_no_cycle :
 Proof. exact load_ok_acyclic. Qed.
 Print Assumptions C16_load_once_no_cycle.
 
+(** the cycle check sits after both branches of importSrc: a relative import of a package that is
+    being loaded is reported at once, like an import by path (the relative branch cannot escape it) *)
+Theorem C16_cycle_check_relative :
+  forall c f s rp i, is_rel (y_key i) = true -> assoc (y_key i) (y_memo s) = None ->
+    In (y_key i) (y_rdir s) -> y_load c (S f) s rp i = (s, Some ECycle).
+Proof. exact cycle_check_relative. Qed.
+Print Assumptions C16_cycle_check_relative.
+
+Theorem C16_relative_cycle_inhabited :
+  snd (y_run_file (mkctx "gp/src" "work" t_rel_cycle)) = Some ECycle
+  /\ snd (g_run_file (mkctx "gp/src" "work" t_rel_cycle)) = Some ECycle.
+Proof. exact relative_cycle_reported. Qed.
+Print Assumptions C16_relative_cycle_inhabited.
+
 Theorem C16_load_inhabited :
   inits (fst (y_run_path (mkctx "gp/src" "" t_diamond) (pth "e")))
   = [pth "gp/src/c"; pth "gp/src/a"; pth "gp/src/b"; pth "gp/src/e"]
